@@ -2,6 +2,7 @@
 //! prints results in the canonical form the Gallina model driver also prints.
 mod util;
 mod session;
+mod tokens;
 #[cfg(feature = "hooks")]
 mod handle;
 #[cfg(feature = "hooks")]
@@ -88,6 +89,14 @@ fn main() {
 				"cases": st.cases, "exhaustive_scripts": st.exhaustive_scripts, "max_nodes": st.max_nodes,
 				"outcomes": st.outcomes, "nontrivial": st.nontrivial,
 				"oracle_failures": st.oracle_failures, "samples": st.samples,
+			});
+			println!("{j}");
+		}
+		"tokens" => {
+			let st = tokens::run(seed, &tier);
+			let j = serde_json::json!({
+				"cases": st.cases, "by_format": st.by_format, "verdicts": st.verdicts, "known_hits": st.known_hits,
+				"failures": st.failures, "panics": st.panics, "nontrivial": st.nontrivial, "max_len": st.max_len,
 			});
 			println!("{j}");
 		}
